@@ -30,7 +30,7 @@ def run(pid, path):
     runner = core.build_runner()
     env = core.ENV
     if case.startswith(("TLS", "NET")):
-        env = dict(core.ENV, SSL_CERT_FILE=os.path.join(core.ROOT, "tls", "ca.crt"), VERIF_TLS_DIR=os.path.join(core.ROOT, "tls"))
+        env = dict(core.ENV, SSL_CERT_FILE=os.path.join(core.ROOT, "tls", "bundle.crt"), VERIF_TLS_DIR=os.path.join(core.ROOT, "tls"))
     impl = core.run_sharded([harness, "codec"], r["prelude"], [case], shards=1, timeout=1800, env=env)[0]
     model = core.run_sharded([runner], r["prelude"], [case], shards=1, timeout=1800, unlimited_stack=True)[0]
     print("case : " + case[:2000])
